@@ -1063,6 +1063,23 @@ def fam_cost(cfg, rng):
         h.hash(0)
     h.clone(0, 1)
     c = rng.random()
+    if c < 0.12 and cfg.n <= 64:
+        # conversion of a list that reaches N only through pending pushes: the flush inside the conversion must
+        # copy only the touched paths, like any other flush
+        k = rng.randint(1, min(3, cfg.n))
+        vs = h.vals(cfg.n - k)
+        h.new_list(0, vs)
+        if rng.random() < 0.7:
+            h.hash(0)
+        h.clone(0, 1)
+        for _ in range(k):
+            h.push(0)
+        if rng.random() < 0.3 and vs:
+            h.write(0, how='set')
+        h.convert(0, 2)
+        if 2 in h.regs:
+            h.hash(2)
+        return h
     if c < 0.6:
         for _ in range(rng.randint(1, 4)):
             if rng.random() < 0.7:
@@ -1105,6 +1122,11 @@ def pick_cfg(rng, family, big_ok=True):
         return Cfg(rng.choice(['u64', 'u8', 'h256']), rng.choice(DEEP_NS), rng.choice(MAPS))
     if family == 'big':
         return Cfg(rng.choice(KINDS), 2 ** 40, rng.choice(MAPS))
+    if family == 'codec' and rng.random() < 0.12:
+        # huge capacities with few elements: anything sized by N instead of by the input shows here
+        if rng.random() < 0.7:
+            return Cfg(rng.choice(KINDS), 2 ** 40, rng.choice(MAPS))
+        return Cfg(rng.choice(['u64', 'u8', 'h256']), rng.choice(DEEP_NS), rng.choice(MAPS))
     if family == 'fault':
         return Cfg('fu64', rng.choice(SMALL_NS + [1024]), rng.choice(MAPS))
     if family == 'par' and rng.random() < 0.25:
